@@ -199,6 +199,7 @@ def run(prop, tier, seed):
         T = g.dataclass(g.max_depth) if i % 2 else g.type()
         pool.append((T, [g.value(T)]))
     pool.extend(format_mixin_families())
+    pool.extend(generic_foreign_families())
     nshards = 16
     ctx = mp.get_context("fork")
     with ctx.Pool(nshards) as p:
@@ -267,6 +268,25 @@ def format_mixin_families():
                                         ["list", [["obj", "Inner", [["date", 2022, 3, 4], ["str", "s"]]]]], ["obj", "PlainP", [["int", 1]]],
                                         ["obj", "Later", [["int", 5]]]]]
                 out.append((outer, [val]))
+    return out
+
+
+def generic_foreign_families():
+    """a generic dataclass Box[T] whose type variable is bound to a class living in ANOTHER top-level module than Box and
+    its holder, and mentioned nowhere else: the generated code names that class by its module-qualified name"""
+    out = []
+    tv = ["tvar", "T"]
+    item = ["dc", "Item", [["sku", ["str"], ["req"], []], ["n", ["int"], ["val", ["int", 1]], []]], [["mixin", "plain"], ["module", "shapes"]]]
+    shade = ["enum", "Shade", "Enum", [["DARK", ["str", "d"]], ["LIGHT", ["str", "l"]]], [["module", "shapes"]]]
+    for arg, val in ((item, ["obj", "Item", [["str", "k"], ["int", 2]]]), (shade, ["enum", "Shade", "DARK"])):
+        for tfields, fields, vals in (
+                ([["v", tv]], [["v", arg, ["req"], []]], [val]),
+                ([["v", tv], ["o", ["opt", tv]]], [["v", arg, ["req"], []], ["o", ["opt", arg], ["val", ["none"]], []]], [val, ["none"]])):
+            box = ["dc", "Box", fields, [["mixin", "plain"], ["generic", [["T"], [arg], tfields]]]]
+            for lazy in (False, True):
+                hold = ["dc", "FHold", [["b", box, ["req"], []]], [["lazy", True]] if lazy else []]
+                out.append((hold, [["obj", "FHold", [["obj", "Box", vals]]]]))
+            out.append((box, [["obj", "Box", vals]]))
     return out
 
 
